@@ -4,7 +4,23 @@ import json, os, subprocess
 ROOT = os.path.dirname(os.path.dirname(os.path.abspath(__file__)))
 
 # id -> (category, technique, level text, level note, design ref)
+SRV_NOTE = "Server is a binary crate: messages.rs / password.rs are compiled into harness/chk_srv via #[path], no hook."
 CLAIMED = {
+ "C27": ("exploration",
+         "property-based testing of the frontend decoder: independent encoder, mutated length fields / terminators, concatenated frames, truncations; round-trip and framing oracle",
+         "Generated-input search: 10M byte streams quick / 100M thorough (well-formed frames from an independent encoder, length-field mutations, missing terminators, raw bytes, concatenations, every truncation of small frames): no panic, bytes consumed <= declared frame, well-formed frames decode to themselves and leave the following bytes untouched.",
+         SRV_NOTE + " Ordinary panics are caught in-process; the decoder has no recursion or unsafe code.",
+         "DESIGN.md §6 C27"),
+ "C28": ("exploration",
+         "property-based testing of backend message encoding against an independent PostgreSQL v3 frame parser",
+         "Generated-input search: 15M messages quick / 120M thorough over every BackendMessage variant with arbitrary (empty, non-ASCII, long) strings and 0-2000 fields; exactly one frame, length field = bytes after the type byte, parsed fields equal the message.",
+         SRV_NOTE + " NUL inside C-strings and >32767 fields are outside the representable domain.",
+         "DESIGN.md §6 C28"),
+ "C29": ("exploration",
+         "model-based testing of PasswordStore against the PostgreSQL MD5 formula and an Argon2 reference, with near-miss responses",
+         "Generated-input search: 400k stores x probes quick / 10M thorough (users with {MD5} and Argon2 secrets, load_from_file, correct / prefix-less / case-changed / truncated / other-user / other-salt responses): accepted iff the reference formula says so.",
+         SRV_NOTE + " Argon2 default-cost hashing is sampled 1/1000; the rest uses harness-made PHC strings with small memory cost.",
+         "DESIGN.md §6 C29"),
  "C01": ("exploration",
          "differential testing against bundled SQLite over generated schemas/data/queries (proptest choice tape, typed SQL grammar), bag model for INTERSECT/EXCEPT ALL",
          "Generated-input search with an independent reference engine: every case builds the same tables in vibesql and SQLite, renders one typed query in both dialects and compares multisets (sequences under a total ORDER BY). 40k cases quick / 1.5M thorough; regions with recorded defects are excluded by construction in 80% of the budget and classified by structural trigger in the rest.",
@@ -25,6 +41,16 @@ CLAIMED = {
          "Generated-input search against a reference model (i128 integer sums, f64 float sums with scaled tolerance, NULL groups, empty input): 300k cases quick / 8M thorough over both execution paths (hook-controlled).",
          "Model grouping equality = documented SqlValue Eq (NULL=NULL, 0.0=-0.0). While the f32-precision findings are open, DOUBLE values come from an f32-exact pool in 80% of the budget.",
          "DESIGN.md §6 C07"),
+ "C02": ("exploration",
+         "differential testing on twin databases (with / without secondary indexes) over generated DML histories and WHERE/ORDER BY shapes",
+         "Generated-input search: 40k histories quick / 1.5M thorough; every history (INSERT/UPDATE/DELETE/DROP+CREATE INDEX) is applied to two databases that differ only in index DDL, then 1-6 SELECTs must return identical multisets (sequences under a total ORDER BY) and every DML identical counts.",
+         "The index-free twin is the reference (its correctness is C01/C06). Index shapes: single/multi-column, ASC/DESC, VARCHAR prefix, UNIQUE.",
+         "DESIGN.md §6 C02"),
+ "C08": ("exploration",
+         "model-based testing of ORDER BY/LIMIT/OFFSET/DISTINCT: result sequence checked against an independently computed unordered result and the documented order predicate",
+         "Generated-input search: 150k cases quick / 4M thorough; the unordered result is computed by the harness model from the table; the engine's answer must be sorted (NULLs last), be the right slice key-wise, be a sub-multiset with complete interior tie groups, with and without a usable index.",
+         "NULLs-last in both directions as documented in order.rs; ties compared only through key sequences and group completeness.",
+         "DESIGN.md §6 C08"),
  "C21": ("exploration",
          "property-based testing (proptest choice tape): algebraic laws over generated SqlValue triples + documented interval model",
          "Generated-input search: millions of SqlValue triples biased to NaN/±0/inf/extreme ints/unit-converted intervals are checked against the Eq/Ord/Hash laws and an independent interval decomposition. Laws over three values are cheap and the taught pools cover every variant pair, so exploration is the right level; it does not show absence.",
@@ -54,7 +80,7 @@ for p in props:
             "thorough_cmd": f"./check {pid} thorough",
             "evidence_file": f"/verif/evidence/{pid}.json",
             "replay_cmd_template": f"./check {pid} --replay {{path}}",
-            "engine": "vcheck",
+            "engine": "chk_srv" if pid in ("C27","C28","C29") else "vcheck",
             "level_claimed": {"category": cat, "text": text, "design_ref": ref},
             "level_note": note,
             "technique": tech,
@@ -74,7 +100,9 @@ manifest = {
         "add_only": True,
     },
     "engines": [
-        {"name": "vcheck", "path": "harness/", "serves_properties": sorted(CLAIMED.keys()),
+        {"name": "chk_srv", "path": "harness/chk_srv", "serves_properties": ["C27","C28","C29"],
+         "kind_free_text": "Rust binary on the same vcore runner; compiles the server's protocol/auth source files via #[path]"},
+        {"name": "vcheck", "path": "harness/", "serves_properties": sorted(k for k in CLAIMED.keys() if k not in ("C27","C28","C29")),
          "kind_free_text": "Rust binary: proptest 1.11 TestRunner driving a choice tape -> typed case IR -> explicit oracle; shrinks to a JSON replay file; child-process isolation for totality properties"},
     ],
     "checks": checks,
